@@ -3,6 +3,7 @@ From Coq Require Import List Bool Arith ZArith NArith.
 Import ListNotations.
 From AM Require Import Model.Tracker Model.TrackerConc Proofs.TrackerConcLemmas.
 From AM Require Gen.TrackerLocks.
+From AM Require Gen.SyncMapLocks Proofs.SyncMapLemmas.
 
 (* GENERATED from sessiontracker.go: every exported method of the correlator starts with
    o.mtx.Lock(); defer o.mtx.Unlock() on one and the same mutex — each call is one critical
@@ -10,6 +11,21 @@ From AM Require Gen.TrackerLocks.
 Theorem C03_calls_are_critical_sections : Gen.TrackerLocks.tracker_calls_locked = true.
 Proof. vm_compute. reflexivity. Qed.
 Print Assumptions C03_calls_are_critical_sections.
+
+(* GENERATED from internal/common/genericsyncmap.go and every call site in the module: each method of
+   the shared map is one critical section on the map's single mutex (Lock; defer Unlock; nothing else
+   touches the mutex), except the ones named ...Unsafe, and every call of those happens inside a
+   locked callback (Iterate / WithLockedValueDo) of the same map or inside a locked method.  This is
+   the "one map call = one atomic block" granularity the model of TrackerConc uses. *)
+Theorem C03_syncmap_methods_atomic : Gen.SyncMapLocks.syncmap_single_mutex = true /\
+  forall m b, In (m, b) Gen.SyncMapLocks.syncmap_api -> b = true \/ Gen.SyncMapLocks.ends_with_unsafe m = true.
+Proof. exact Proofs.SyncMapLemmas.syncmap_methods_atomic. Qed.
+Print Assumptions C03_syncmap_methods_atomic.
+
+Theorem C03_syncmap_unsafe_calls_hold_lock : forall site m b,
+  In (site, m, b) Gen.SyncMapLocks.syncmap_unsafe_calls -> b = true.
+Proof. exact Proofs.SyncMapLemmas.syncmap_unsafe_calls_hold_lock. Qed.
+Print Assumptions C03_syncmap_unsafe_calls_hold_lock.
 
 (* For EVERY system of threads (any number of threads, any calls) and EVERY schedule at
    lock-acquisition granularity: a complete execution under the correlator-wide mutex leaves
